@@ -17,6 +17,7 @@
 #
 from fractions import Fraction
 from io import StringIO
+import re
 from typing import Any, Iterator, Optional, Type, cast
 
 import pysmt
@@ -26,6 +27,13 @@ from pysmt.walkers.generic import handles
 from pysmt.utils import quote
 from pysmt.constants import is_pysmt_fraction, is_pysmt_integer
 from pysmt.fnode import FNode
+
+
+# Identifiers and reserved words of the human-readable syntax (see pysmt.parsing)
+_HR_IDENTIFIER = re.compile(r"^[A-Za-z_][A-Za-z0-9_]*$")
+_HR_KEYWORDS = frozenset(["True", "False", "xor", "bv2nat", "bvcomp", "ROR", "ROL",
+                          "ZEXT", "SEXT", "ToReal", "Int", "Real", "Bool",
+                          "forall", "exists"])
 
 
 class HRPrinter(TreeWalker):
@@ -80,7 +88,14 @@ class HRPrinter(TreeWalker):
         self.write(")")
 
     def walk_symbol(self, formula: FNode):
-        self.write(quote(formula.symbol_name(), style="'"))
+        name = formula.symbol_name()
+        if _HR_IDENTIFIER.match(name) is None or name in _HR_KEYWORDS:
+            # Not an identifier of the human-readable syntax (e.g.,
+            # 'a-b' would be read back as a subtraction)
+            name = name.replace("\\", "\\\\").replace("'", "\\'")
+            self.write("'%s'" % name)
+        else:
+            self.write(quote(name, style="'"))
 
     def walk_function(self, formula: FNode) -> Iterator[FNode]:
         yield formula.function_name()
